@@ -275,7 +275,7 @@ func Checks() map[string]*simcore.Check {
 	return map[string]*simcore.Check{
 		"C47": {
 			ID: "C47", Engine: "snapsim", Level: "exploration",
-			Rule: "one run = one generated world: Node A (real BlockChain, Amsterdam from genesis, 20-400 accounts, 0-3 large and many small storage tries, shared/unique code, 0-10 further blocks of storage writes/clears, transfers and deployments) served through the real snap handlers to Node B (real snap/1 or snap/2 syncer on SimKV, hash or path scheme) by 1-5 simulated peers; every request gets a planned action keyed by (peer, kind, request content, attempt): deliver after latency / drop / deliver after the longest timeout / duplicate / legal truncation / empty / forged (13 variants, every forged value carries a marker) / peer leaves with the request in flight; operations: pivot moves, restarts on the same disk, peer drop/join, clock jumps. Non-trivial = at least one fault or operation fired; distinct = distinct (message/decision sequence, final root) fingerprints.",
+			Rule: "one run = one generated world: Node A (real BlockChain, Amsterdam from genesis, 20-400 accounts, 0-3 large and many small storage tries, shared/unique code, 0-10 further blocks of storage writes/clears, transfers and deployments) served through the real snap handlers to Node B (real snap/1 or snap/2 syncer on SimKV, hash or path scheme) by 1-5 simulated peers; every request gets a planned action keyed by (peer, kind, request content, attempt): deliver after latency / drop / deliver after the longest timeout / duplicate / legal truncation / empty / forged (13 variants, every forged value carries a marker) / peer leaves with the request in flight; operations: pivot moves, restarts on the same disk, peer drop/join, clock jumps, process-crash images (restarts on an image lacking the last writes are executed but only counted, not judged). Non-trivial = at least one fault or operation fired; distinct = distinct (message/decision sequence, final root) fingerprints.",
 			Assumptions: []string{
 				"the flat state of a snap/1 sync that saw a pivot move is only required to consist of verified entries (geth regenerates it from the trie in SnapSyncComplete); it is compared for equality when the pivot did not move, and always for snap/2",
 				"Node A's own state is the reference, cross-checked per root against the independent refmpt root computation",
@@ -292,7 +292,7 @@ func Checks() map[string]*simcore.Check {
 				"interleaving of concurrently delivered responses (plan knob 'concurrent')",
 				"GenerateTrie partition workers, BlockChain-internal goroutines of Node A",
 			},
-			Runs: map[string]int{"quick": 640, "thorough": 40000},
+			Runs: map[string]int{"quick": 2400, "thorough": 60000},
 			Gen:  GenC47, Decode: DecodeC47, Run: RunC47, Shrink: ShrinkC47,
 			ProbeNames: []string{"completed-and-compared", "forged-response-rejected", "answer-from-unregistered-peer", "answer-to-previous-syncer", "concurrent-deliveries", "peer-rejoined", "sync-cycle-completed"},
 		},
@@ -310,7 +310,7 @@ func Checks() map[string]*simcore.Check {
 				Stub: []string{"the requesting clients (generated requests)", "clock (synctest bubble)"},
 			},
 			Perturbed: []string{"block import running concurrently with a request (knob 'conc'): the interleaving inside Node A is not decided", "pathdb background flushing, snapshot generation"},
-			Runs:      map[string]int{"quick": 1600, "thorough": 100000},
+			Runs:      map[string]int{"quick": 2400, "thorough": 100000},
 			Gen:       GenC48, Decode: DecodeC48, Run: RunC48, Shrink: ShrinkC48,
 			ProbeNames: []string{"acc-answered", "sto-answered", "sto-multi-list-answer", "sto-proven-answer", "code-answered", "trie-answered", "unknown-root-request", "old-root-request", "inverted-range", "multi-account-storage-request", "import-concurrent-with-request", "trie-bad-request-error", "filler-blocks-imported", "syncer-requests-checked"},
 		},
